@@ -6,7 +6,7 @@ for m in /tmp/wt/${pid}r${r}/MUTANTS/m*; do
   k=$(basename $m)
   blk=$(awk -v s="== $m" '$0==s{f=1;next} /^== /{f=0} f' $log)
   echo "$blk" | grep -q '^CONFIRMED' || { echo "$pid $k NOT CONFIRMED - skipped"; continue; }
-  p=$(grep -m1 '^package ' $m/demo_test.go | awk '{print $2}' | sed 's/_test$//'); case "$p" in genql) pkg=.;; *) pkg=$p;; esac
+  p=$(grep -m1 '^package ' $m/demo_test.go | awk '{print $2}' | sed 's/_test$//'); case "$p" in genql) pkg=.;; sanitize) pkg=sanitizer;; *) pkg=$p;; esac
   what=$(grep -v '^\s*$' $m/README.md | grep -v '^#' | head -2 | tr '\n' ' ' | cut -c1-300)
   if echo "$blk" | grep -q "^CAUGHT by $pid"; then c=$(echo "$blk" | awk '/^CAUGHT/{f=1;next} /^-- all/{f=0} f' | awk '{print $2}' | sort -u | tr '\n' ' '); else c="MISSED when it arrived"; fi
   python3 /verif/tools/store_seed.py $pid $m $pid-r$r-$k $pkg "$k - $what" "see README.md (round $r)" "$c"
